@@ -22,6 +22,7 @@ TRUSTED = []
 PARTIAL = []
 
 PTS3 = [(x, y) for y in range(3) for x in range(3)]
+PTS4 = [(0, 0), (2, 1), (1, 2), (-1, 3)]     # 4 points in general position (steep, shallow and diagonal segments)
 
 
 def grid_pts(G):
@@ -34,6 +35,13 @@ def grid_triples(G):
         for b in g:
             for c in g:
                 yield (*a, *b, *c)
+
+
+def grid_multisets(G):
+    """vertex triples of the GxG grid up to order (the suites that use it try all 6 orders themselves)"""
+    g = grid_pts(G)
+    for a, b, c in itertools.combinations_with_replacement(g, 3):
+        yield (*a, *b, *c)
 
 
 def rnd_tri(rng, m=40):
@@ -92,8 +100,8 @@ def poly_lists(pts, maxn):
 
 
 def cases(tier, rng):
-    G = 4 if tier == 'quick' else 6
-    for t in grid_triples(G):
+    trip = grid_triples(7)   # ALL ordered vertex triples of the 7x7 grid (117 649), colinear and coincident included
+    for t in trip:
         yield J('tri_points', *t)
         yield J('tri_bbox', *t)
     n = 1500 if tier == 'quick' else 25000
@@ -106,9 +114,9 @@ def cases(tier, rng):
         yield J('tri_points', *t)
         yield J('tri_bbox', *tuple(rng.randrange(-8192, 8193) for _ in range(6)))
     # polylines
-    lists = list(poly_lists(PTS3, 4))
+    lists = list(poly_lists(PTS3, 4)) + list(poly_lists(PTS4, 6))
     if tier != 'quick':
-        lists += list(poly_lists(grid_pts(4), 4)) + list(itertools.product(PTS3, repeat=5))
+        lists += list(poly_lists(grid_pts(4), 4)) + list(itertools.product(PTS3, repeat=5)) + list(itertools.product(PTS3[:6], repeat=6))
     for vs in lists:
         yield J('poly_points', 0, 0, *flat(vs))
     for vs in poly_lists(PTS3, 3):
@@ -130,9 +138,10 @@ def cases(tier, rng):
 
 
 def search(tier, rng):
-    G = 4 if tier == 'quick' else 6
-    for t in grid_triples(G):
+    # p_tri tries all 6 vertex orders of its argument itself: the multisets of the 7x7 grid are ALL ordered triples
+    for t in grid_multisets(7):
         yield J('p_tri', *t)
+    for t in (grid_triples(6) if tier == 'quick' else grid_triples(7)):
         yield J('p_tri_outline', *t)
     n = 2500 if tier == 'quick' else 40000
     for _ in range(n):
@@ -157,7 +166,7 @@ def search(tier, rng):
         d = (rng.randrange(-30, 31), rng.randrange(-30, 31))
         yield J('p_tri_pair', *t, *d)
     # polylines
-    lists = list(poly_lists(PTS3, 4))
+    lists = list(poly_lists(PTS3, 4)) + list(poly_lists(PTS4, 6))
     if tier != 'quick':
         lists += list(itertools.product(PTS3, repeat=5)) + list(itertools.product(PTS3[:6], repeat=6))
     for vs in lists:
